@@ -142,6 +142,7 @@ class World:
         self.junk = []
         self.conds = {}        # shared condition objects by name
         self.held = {}         # (actor, name) -> condition object kept in a "variable"
+        self.ctxs = {}         # name -> borrow/claim context object used by several blocks
         self.seam = seam if seam is not None else Seam(
             plan=self.plan, inject=self.inject, record=record_kernel,
             same_time_cap=self.config.get("same_time_cap"),
@@ -693,7 +694,17 @@ class World:
         mode = op.get("mode", "borrow")
         entered = False
         try:
-            ctx = supply.borrow(**amounts) if mode == "borrow" else supply.claim(**amounts)
+            key = op.get("ctx")
+            if key is not None and key in self.ctxs:
+                ctx = self.ctxs[key]       # `lease = supply.borrow(...)` entered by several blocks
+            else:
+                ctx = supply.borrow(**amounts) if mode == "borrow" else supply.claim(**amounts)
+                if key is not None:
+                    self.ctxs[key] = ctx
+            if op.get("defer"):
+                # the context object is made now and entered later
+                self.log(a, mode + ".made", name, ident, amounts)
+                await self.run_ops(a, op["defer"])
             self.log(a, mode + ".req", name, ident, amounts, dict(supply.levels))
             async with ctx as share:
                 entered = True
@@ -1074,6 +1085,7 @@ def cleanup(record, collect_every=16):
         world.scopes.clear()
         world.conds.clear()
         world.held.clear()
+        world.ctxs.clear()
         world.junk.clear()
     sys.unraisablehook = _silent_hook
     try:
